@@ -941,7 +941,7 @@ func genImage(it *DrawItem) image.Image {
 	return img
 }
 
-func renderOnce(c *canvas.Canvas, d0 *Drawing, st *Step) Result {
+func renderOnce(c *canvas.Canvas, d0 *Drawing, st *Step) (result Result) {
 	d := struct{ W, H float64 }{c.W, c.H} // Fit/Clip change the canvas size
 	sink := &faultySink{failAt: st.FailAt}
 	buf := sink
@@ -982,6 +982,15 @@ func renderOnce(c *canvas.Canvas, d0 *Drawing, st *Step) Result {
 		}
 		img := rasterizer.Draw(c, res, cs)
 		err = png.Encode(buf, img)
+		if err == nil {
+			// the returned image is the caller's: its pixels are looked at again after later calls (O7)
+			pix := func() uint64 {
+				h := newHasher()
+				h.bytes(img.Pix)
+				return h.h
+			}
+			defer func(h0 uint64) { result.again, result.againHash = pix, h0 }(pix())
+		}
 	default:
 		panic("unknown format " + st.Format)
 	}
